@@ -189,30 +189,73 @@ def confirm_on_real_code(rep, name, data):
     """a disagreement between model and code is turned into a concrete failing input when the real code (real qr,
     nothing patched) also deviates from the dense definition on the same factors"""
     np, torch, tu, MPS = _imports()
+    if data.get("kind") == "mps":
+        return confirm_fill(rep, name, data)
+    d, bonds = data["d"], data["bonds"]
+    fs = [torch.tensor([complex(*z) for z in f], dtype=tu.DT).reshape(bonds[i], d, bonds[i + 1]) for i, f in enumerate(data["factors"])]
+    ops = torch.stack([torch.tensor([complex(*z) for z in o], dtype=tu.DT).reshape(d, d) for o in data["ops"]])
+    n = len(fs)
+    psi = tu.dense_state(fs).numpy()
+    c = data["prep"][1] if len(data["prep"]) > 1 else 0
+    ref = np.array([[np.vdot(psi, np_embed(np, n, d, q, o.numpy()) @ psi) for o in ops] for q in range(n)])
+    ok_ = [np_embed(np, n, d, q, ops[0].numpy()) for q in range(n)]
+    refc = np.array([[(np.vdot(psi, ok_[a] @ psi) if a == b else np.vdot(psi, ok_[a] @ (ok_[b] @ psi))).real for b in range(n)] for a in range(n)])
+    nop = np.zeros((d, d), dtype=complex)
+    nop[1, 1] = 1.0
+    refo = np.array([np.vdot(psi, np_embed(np, n, d, q, nop) @ psi).real for q in range(n)])
+    sc = max(1.0, float(np.vdot(psi, psi).real))
     try:
-        d, bonds = data["d"], data["bonds"]
-        fs = [torch.tensor([complex(*z) for z in f], dtype=tu.DT).reshape(bonds[i], d, bonds[i + 1]) for i, f in enumerate(data["factors"])]
-        ops = torch.stack([torch.tensor([complex(*z) for z in o], dtype=tu.DT).reshape(d, d) for o in data["ops"]])
-        n = len(fs)
-        psi = tu.dense_state(fs).numpy()
+        import emu_mps.custom_callback_implementations as mcb
         st = MPS([f.clone() for f in fs], orthogonality_center=None, num_gpus_to_use=0, eigenstates=EIG[d])
-        c = data["prep"][1] if len(data["prep"]) > 1 else 0
         st.orthogonalize(c)
         eb = st.expect_batch(ops).numpy()
-        ref = np.array([[np.vdot(psi, np_embed(np, n, d, q, o.numpy()) @ psi) for o in ops] for q in range(n)])
+        occ = mcb.qubit_occupation_mps_impl(None, config=None, state=st, hamiltonian=None).numpy()
         cm = st.get_correlation_matrix(operator=ops[0]).numpy()
-        ok_ = [np_embed(np, n, d, q, ops[0].numpy()) for q in range(n)]
-        refc = np.array([[(np.vdot(psi, ok_[a] @ psi) if a == b else np.vdot(psi, ok_[a] @ (ok_[b] @ psi))).real for b in range(n)] for a in range(n)])
-        sc = max(1.0, float(np.vdot(psi, psi).real))
-        e1, e2 = float(np.abs(eb - ref).max()) / sc, float(np.abs(cm - refc).max()) / sc
-        if e1 > 1e-9:
-            rep.fail(f"emu-mps expect_batch (d={d}, n={n}, recorded orthogonality centre {c}): differs from the dense definition by {e1:.3e} "
-                     f"(found through the Model.MpsObs correspondence [{name}])", dict(data, observable="expect_batch"))
-        if e2 > 1e-9:
-            rep.fail(f"emu-mps get_correlation_matrix(operator) (d={d}, n={n}): differs from <O_i O_j> (diagonal <O_i>) by {e2:.3e} "
-                     f"(found through the Model.MpsObs correspondence [{name}])", dict(data, observable="correlation(operator)"))
     except Exception as e:  # the real code raising on a valid state is itself a failing input
         rep.fail(f"emu-mps observable raised {type(e).__name__}: {e}", dict(data, observable="raise"), klass=None)
+        return
+    e1, e2, e3 = float(np.abs(eb - ref).max()) / sc, float(np.abs(cm - refc).max()) / sc, float(np.abs(occ - refo).max()) / sc
+    if e1 > 1e-9:
+        rep.fail(f"emu-mps expect_batch (d={d}, n={n}, recorded orthogonality centre {c}): differs from the dense definition by {e1:.3e} "
+                 f"(found through the Model.MpsObs correspondence [{name}])", dict(data, observable="expect_batch"))
+    if e3 > 1e-9:
+        rep.fail(f"emu-mps occupation (d={d}, n={n}, recorded orthogonality centre {c}): differs from <psi|n_i|psi> by {e3:.3e} "
+                 f"(found through the Model.MpsObs correspondence [{name}])", dict(data, observable="occupation"))
+    if e2 > 1e-9:
+        rep.fail(f"emu-mps get_correlation_matrix(operator) (d={d}, n={n}): differs from <O_i O_j> (diagonal <O_i>) by {e2:.3e} "
+                 f"(found through the Model.MpsObs correspondence [{name}])", dict(data, observable="correlation(operator)"))
+
+
+def confirm_fill(rep, name, data):
+    """fill_results-style input (kind "mps" of c13.replay): occupation of the normalised state vs numpy"""
+    np, torch, tu, MPS = _imports()
+    bonds, nw = data["bonds"], sum(data["mask"])
+    fs = [torch.tensor([complex(*z) for z in f], dtype=tu.DT).reshape(bonds[i], 2, bonds[i + 1]) for i, f in enumerate(data["factors"])]
+    psi = tu.dense_state(fs).numpy()
+    psi = psi / np.linalg.norm(psi)
+    nop = np.array([[0, 0], [0, 1]], dtype=complex)
+    ref = np.array([np.vdot(psi, np_embed(np, nw, 2, q, nop) @ psi).real for q in range(nw)])
+    try:
+        import emu_mps.custom_callback_implementations as mcb
+        st = MPS([f.clone() for f in fs], orthogonality_center=None, num_gpus_to_use=0)
+        st = 1 / st.norm() * st
+        occ = mcb.qubit_occupation_mps_impl(None, config=None, state=st, hamiltonian=None).numpy()
+    except Exception as e:
+        rep.fail(f"emu-mps observable raised {type(e).__name__}: {e}", dict(data, observable="raise"), klass=None)
+        return
+    err = float(np.abs(occ - ref).max())
+    if err > 1e-9:
+        rep.fail(f"emu-mps occupation of the normalised state (n={nw}): differs from the dense definition by {err:.3e} "
+                 f"(found through the Model.MpsObs correspondence [{name}])", dict(data, observable="occupation"))
+
+
+def guarded(rep, data, fn):
+    """run real-code calls; an exception escaping the real code is a candidate finding, not a harness error"""
+    try:
+        return True, fn()
+    except Exception as e:
+        rep.fail(f"emu-mps observable raised {type(e).__name__}: {e}", dict(data, observable="raise"), klass=None)
+        return False, None
 
 
 def _ser(fs):
@@ -236,20 +279,27 @@ def exact_stream(rep: Report, rng, tier: str, S: Stream) -> None:
         rest = [s for s in shapes if s not in keep]
         rng.shuffle(rest)
         shapes = keep + rest[:10]
+    else:
+        shapes = shapes * 3                                            # every centre of every size, three states each
     for (n, d, c) in shapes:
         bonds, fs = canonical_chain(rng, torch, tu, n, d, c, 3)
         ops = rand_ops(rng, torch, tu, d)
         st = MPS([f.clone() for f in fs], orthogonality_center=c, num_gpus_to_use=0, eigenstates=EIG[d])
         tape = IsoQr(rng, torch, tu)
-        with mock.patch("torch.linalg.qr", tape):
-            res = st.expect_batch(torch.stack(ops))
+        data = dict(kind="mps-centre", d=d, bonds=bonds, factors=_ser(fs), prep=["orthogonalize", c], ops=_ser(ops), cut=0)
+
+        def real_eb(st=st, tape=tape, ops=ops):
+            with mock.patch("torch.linalg.qr", tape):
+                return st.expect_batch(torch.stack(ops))
+        ok, res = guarded(rep, data, real_eb)
+        if not ok:
+            continue
         nr = n - 1 - c
         rt, lt = [r for _, _, r in tape.calls[:nr]], [r for _, _, r in tape.calls[nr:]]
         rep.hist("mps_exact_centre", f"n={n}/c={'0' if c == 0 else ('n-1' if c == n - 1 else 'mid')}")
-        if len(tape.calls) != n - 1 or not tu.is_exact(res, *rt, *lt):
-            rep.count("mps_exact_cases_skipped")
+        if not tu.is_exact(res, *rt, *lt):                      # magnitude guard only; a wrong number of qr calls is a finding:
+            rep.count("mps_exact_cases_skipped")             # the model then answers `none` (tape too short) or a different table
             continue
-        data = dict(kind="mps-centre", d=d, bonds=bonds, factors=_ser(fs), prep=["orthogonalize", c], ops=_ser(ops), cut=0)
         want = [[complex(z) for z in row] for row in res.tolist()]
 
         def cmp_rows(reply, want=want):
@@ -264,8 +314,13 @@ def exact_stream(rep: Report, rng, tier: str, S: Stream) -> None:
             S.add("expect_batch = dense definition", f"mo.dense1 z {d} {chain} {enc_ops(tu, ops, 'z')}", cmp_rows, data)
         # occupation (fresh tape: the callback runs expect_batch again)
         tape2 = IsoQr(rng, torch, tu)
-        with mock.patch("torch.linalg.qr", tape2):
-            occ = mcb.qubit_occupation_mps_impl(None, config=None, state=st, hamiltonian=None)
+
+        def real_occ(st=st, tape2=tape2):
+            with mock.patch("torch.linalg.qr", tape2):
+                return mcb.qubit_occupation_mps_impl(None, config=None, state=st, hamiltonian=None)
+        ok, occ = guarded(rep, data, real_occ)
+        if not ok:
+            continue
         rt2, lt2 = [r for _, _, r in tape2.calls[:nr]], [r for _, _, r in tape2.calls[nr:]]
         wocc = [float(x) for x in occ.tolist()]
 
@@ -309,7 +364,7 @@ def exact_stream(rep: Report, rng, tier: str, S: Stream) -> None:
     # ---- get_correlation_matrix with exactly isometric orthogonalize steps
     for i in range(6 if quick else 40):
         d = 2 if i % 3 else 3
-        n = rng.randint(2, 4 if d == 2 else 3)
+        n = rng.choice([2, 3, 3, 4, 4] if d == 2 else [2, 3, 3])
         fs = tu.rand_int_chain(rng, n, (d,), 2, 2)
         bonds = [1] + [f.shape[2] for f in fs]
         op = rand_ops(rng, torch, tu, d, 1)[0] if i % 2 else None
@@ -320,18 +375,23 @@ def exact_stream(rep: Report, rng, tier: str, S: Stream) -> None:
             r = real_orth(self, k)
             snaps.append((k, [f.clone() for f in self.factors]))
             return r
-        with mock.patch("torch.linalg.qr", IsoQr(rng, torch, tu)), mock.patch.object(MPS, "orthogonalize", rec_orth):
-            cm = st.get_correlation_matrix() if op is None else st.get_correlation_matrix(operator=op)
+        nop = torch.zeros(d, d, dtype=tu.DT)
+        nop[1, 1] = 1
+        opm = nop if op is None else op
+        data = dict(kind="mps-centre", d=d, bonds=bonds, factors=_ser(fs), prep=["none"], ops=_ser([opm, opm, opm]), cut=0)
+
+        def real_cm(st=st, op=op, rec_orth=rec_orth):
+            with mock.patch("torch.linalg.qr", IsoQr(rng, torch, tu)), mock.patch.object(MPS, "orthogonalize", rec_orth):
+                return st.get_correlation_matrix() if op is None else st.get_correlation_matrix(operator=op)
+        ok, cm = guarded(rep, data, real_cm)
+        if not ok:
+            continue
         if [k for k, _ in snaps] != list(range(n)) or not tu.is_exact(cm, *[f for _, s in snaps for f in s]):
             rep.count("mps_exact_cases_skipped")
             continue
         for k, s in snaps:                                 # the hypothesis of the theorems, exactly
             if not is_canonical(np, s, k, 0.0)[0]:
                 rep.broke(f"harness: snapshot after orthogonalize({k}) with the exact isometric qr is not canonical")
-        nop = torch.zeros(d, d, dtype=tu.DT)
-        nop[1, 1] = 1
-        opm = nop if op is None else op
-        data = dict(kind="mps-centre", d=d, bonds=bonds, factors=_ser(fs), prep=["none"], ops=_ser([opm, opm, opm]), cut=0)
         want = [[float(x.real) for x in row] for row in cm.tolist()]
 
         def cmp_tab(reply, want=want):
@@ -361,11 +421,14 @@ def tape_stream(rep: Report, rng, tier: str, S: Stream) -> None:
         fs = tu.rand_float_chain(gen, n, (d,), bonds)
         c = rng.choice([None] + list(range(n)))
         st = MPS([f.clone() for f in fs], orthogonality_center=None, num_gpus_to_use=0, eigenstates=EIG[d])
-        if c is not None:
-            st.orthogonalize(c)
         ops = [torch.randn(d, d, dtype=torch.float64, generator=gen) + 1j * torch.randn(d, d, dtype=torch.float64, generator=gen)
                for _ in range(2)]
         ops = [o.to(tu.DT) for o in ops]
+        data = dict(kind="mps-centre", d=d, bonds=bonds, factors=_ser(fs), prep=["none"] if c is None else ["orthogonalize", c],
+                    ops=_ser(ops + [ops[0]]), cut=0)
+        if c is not None:
+            if not guarded(rep, data, lambda: st.orthogonalize(c))[0]:
+                continue
         real_orth, at = MPS.orthogonalize, {}
 
         def rec_orth(self, k=0, at=at):
@@ -373,8 +436,13 @@ def tape_stream(rep: Report, rng, tier: str, S: Stream) -> None:
             at["n_qr"] = len(tape.calls)
             return r
         tape = RecQr(torch)
-        with mock.patch("torch.linalg.qr", tape), mock.patch.object(MPS, "orthogonalize", rec_orth):
-            res = st.expect_batch(torch.stack(ops))
+
+        def real_eb(st=st, tape=tape, ops=ops, rec_orth=rec_orth):
+            with mock.patch("torch.linalg.qr", tape), mock.patch.object(MPS, "orthogonalize", rec_orth):
+                return st.expect_batch(torch.stack(ops))
+        ok, res = guarded(rep, data, real_eb)
+        if not ok:
+            continue
         skip = at.get("n_qr", 0)                      # qr calls of the internal orthogonalize(0)
         cc = 0 if c is None else c
         facs = [f.clone() for f in st.factors]        # expect_batch does not modify them after its orthogonalize
@@ -386,8 +454,6 @@ def tape_stream(rep: Report, rng, tier: str, S: Stream) -> None:
         for m, _, r in calls:
             worst["gram"] = max(worst["gram"], gram_defect(np, m, r))
         rep.hist("mps_tape_centre", "None" if c is None else ("edge" if c in (0, n - 1) else "mid"))
-        data = dict(kind="mps-centre", d=d, bonds=bonds, factors=_ser(fs), prep=["none"] if c is None else ["orthogonalize", c],
-                    ops=_ser(ops + [ops[0]]), cut=0)
         want = res.numpy()
 
         def cmp_rows(reply, want=want, state=state):
@@ -410,8 +476,12 @@ def tape_stream(rep: Report, rng, tier: str, S: Stream) -> None:
                 r = real_orth(self, k)
                 snaps.append((k, [f.clone() for f in self.factors]))
                 return r
-            with mock.patch.object(MPS, "orthogonalize", rec2):
-                cm = st2.get_correlation_matrix(operator=ops[0]).numpy()
+            def real_cm(st2=st2, rec2=rec2, ops=ops):
+                with mock.patch.object(MPS, "orthogonalize", rec2):
+                    return st2.get_correlation_matrix(operator=ops[0]).numpy()
+            ok, cm = guarded(rep, data, real_cm)
+            if not ok:
+                continue
             for k, s in snaps:
                 worst["canonical"] = max(worst["canonical"], is_canonical(np, s, k, 1e-10)[1])
 
@@ -446,28 +516,36 @@ def fill_results_stream(rep: Report, rng, tier: str, S: Stream) -> None:
         nw = sum(mask)
         bonds = [1] + [rng.randint(1, 3) for _ in range(nw - 1)] + [1]
         fs = tu.rand_float_chain(gen, nw, (2,), bonds)
-        st = MPS([f.clone() for f in fs], orthogonality_center=None, num_gpus_to_use=0)
         c = rng.choice([None] + list(range(nw)))
-        if c is not None:
-            st.orthogonalize(c)
-        normalized = 1 / st.norm() * st
-        if all(mask):
-            full = normalized
-        else:
-            w = torch.tensor(mask)
-            full = MPS(extended_mps_factors(normalized.factors, w), num_gpus_to_use=None,
-                       orthogonality_center=get_extended_site_index(w, normalized.orthogonality_center), eigenstates=normalized.eigenstates)
-        # order as in a run with [CorrelationMatrix, Occupation]: the second callback sees the centre left by the first
-        if i % 3 == 0:
-            cor = mcb.correlation_matrix_mps_impl(None, config=None, state=full, hamiltonian=None).numpy()
-            occ = mcb.qubit_occupation_mps_impl(None, config=None, state=full, hamiltonian=None).numpy()
-        else:
-            occ = mcb.qubit_occupation_mps_impl(None, config=None, state=full, hamiltonian=None).numpy()
-            cor = mcb.correlation_matrix_mps_impl(None, config=None, state=full, hamiltonian=None).numpy()
         well = [q for q, m in enumerate(mask) if m]
         rep.hist("mps_fill_dark", n - nw)
         data = dict(kind="mps", n=n, mask=mask, bonds=bonds, om=[0.0] * nw, de=[0.0] * nw, ph=[0.0] * nw, U=[[0.0] * nw] * nw, bond=0,
                     factors=_ser(fs))
+
+        def real_fill(fs=fs, c=c, mask=mask, i=i):
+            st = MPS([f.clone() for f in fs], orthogonality_center=None, num_gpus_to_use=0)
+            if c is not None:
+                st.orthogonalize(c)
+            normalized = 1 / st.norm() * st
+            if all(mask):
+                full = normalized
+            else:
+                w = torch.tensor(mask)
+                full = MPS(extended_mps_factors(normalized.factors, w), num_gpus_to_use=None,
+                           orthogonality_center=get_extended_site_index(w, normalized.orthogonality_center),
+                           eigenstates=normalized.eigenstates)
+            # order as in a run with [CorrelationMatrix, Occupation]: the second callback sees the centre left by the first
+            if i % 3 == 0:
+                cor = mcb.correlation_matrix_mps_impl(None, config=None, state=full, hamiltonian=None).numpy()
+                occ = mcb.qubit_occupation_mps_impl(None, config=None, state=full, hamiltonian=None).numpy()
+            else:
+                occ = mcb.qubit_occupation_mps_impl(None, config=None, state=full, hamiltonian=None).numpy()
+                cor = mcb.correlation_matrix_mps_impl(None, config=None, state=full, hamiltonian=None).numpy()
+            return occ, cor
+        ok, oc = guarded(rep, data, real_fill)
+        if not ok:
+            continue
+        occ, cor = oc
 
         def cmp_fill(reply, occ=occ, cor=cor, well=well, n=n, state=state):
             toks = reply.split()
